@@ -124,7 +124,7 @@ class Driver:
                 consumed += 1
         cl = [f'slots={len(self.envs)}'] + (['switches>=2'] if switches >= 2 else []) + (['randomness_consumed'] if consumed else []) + (['noise'] if self.noise else [])
         self.ctx.ev.case(None, nt=(switches >= 2 and consumed > 0), classes=cl, key=[self.cfgs, self.seeds, self.ops],
-                         sample={'cfgs': self.cfgs, 'seeds': self.seeds, 'schedule': self.schedule[:40], 'noise_ops': self.noise})
+                         sample={'op_log (first 40)': getattr(self, 'log', [])[:40], 'cfgs': self.cfgs, 'seeds': self.seeds, 'schedule': self.schedule[:40], 'noise_ops': self.noise})
 
 
 def machine(tier, ctx, last):
